@@ -42,7 +42,8 @@ def scenario(ctx, i, kind=None):
             s["n"][c0] = 0.0
             s["f"][c0] = 0.0
             s["s"][c0] = 0.0
-    sc.update(kind=kind, labels=[int(a) for a in labels], K=K, stats=sts, nparts=int(r.integers(1, n + 1)), iters=int(r.integers(1, 3)), R=int(r.integers(1, 3)), seed=int(r.integers(0, 10**6)))
+    first = [int(a) for a in labels[r.permutation(n)]] if kind != "ivector" and r.random() < 0.3 else None
+    sc.update(first_labels=first, kind=kind, labels=[int(a) for a in labels], K=K, stats=sts, nparts=int(r.integers(1, n + 1)), iters=int(r.integers(1, 3)), R=int(r.integers(1, 3)), seed=int(r.integers(0, 10**6)))
     return sc
 
 
@@ -68,6 +69,9 @@ def train(sc, as_bag, scheduler=None):
             iv.fit(Xin)
             return [np.asarray(iv.T, float), np.asarray(iv.sigma, float)]
         mach = fagen.mk_machine(sc, em_iterations=sc["iters"])
+        if sc.get("first_labels") is not None:
+            # the same machine was trained before, on the same bag / list object, with the sessions labelled differently
+            mach.fit(Xin, np.array(sc["first_labels"]))
         mach.fit(Xin, np.array(sc["labels"]))
         return [np.asarray(mach.U, float), np.asarray(mach.D, float)] + ([np.asarray(mach.V, float)] if sc["jfa"] else [])
 
@@ -139,7 +143,7 @@ def correspondence(ctx):
         ctx.count("train:" + sc["kind"])
         ctx.case(["t", sc["kind"], sc["labels"], sc["nparts"], core.tolist(sc["stats"][0]["f"])], nontrivial=sc["nparts"] >= 2,
                  sample={"kind": sc["kind"], "n": len(sc["stats"]), "nparts": sc["nparts"], "labels": sc["labels"], "iters": sc["iters"]})
-        inp = {k: sc[k] for k in ("kind", "C", "D", "rU", "rV", "jfa", "w", "m", "v", "U", "V", "Dd", "stats", "labels", "K", "nparts", "iters", "R", "seed")}
+        inp = {k: sc[k] for k in ("kind", "C", "D", "rU", "rV", "jfa", "w", "m", "v", "U", "V", "Dd", "stats", "labels", "first_labels", "K", "nparts", "iters", "R", "seed")}
         ref = core.impl(lambda: train(sc, False))
         rec = sched.RecordingScheduler()
         got = core.impl(lambda: train(sc, True, rec))
@@ -199,7 +203,7 @@ def search(ctx):
             ctx.count("search:processes-executor")
         if f and f["sig"] not in seen:
             seen.add(f["sig"])
-            f["input"] = {k: sc[k] for k in ("kind", "C", "D", "rU", "rV", "jfa", "w", "m", "v", "U", "V", "Dd", "stats", "labels", "K", "nparts", "iters", "R", "seed")}
+            f["input"] = {k: sc[k] for k in ("kind", "C", "D", "rU", "rV", "jfa", "w", "m", "v", "U", "V", "Dd", "stats", "labels", "first_labels", "K", "nparts", "iters", "R", "seed")}
             fails.append(f)
     return fails
 
